@@ -187,6 +187,8 @@ func genCase(t *rapid.T, thorough bool) Case {
 	if c.Chain == "multinewick" || (c.Chain == "single-multi" && c.Format == "newick") {
 		c.Layout = docs.Layout{BreakAfterComma: rapid.Bool().Draw(t, "brk"), BlankLines: rapid.IntRange(0, 2).Draw(t, "blank"), Trailing: rapid.Bool().Draw(t, "trail"),
 			CRLF: rapid.IntRange(0, 3).Draw(t, "crlf") == 0, NoFinalNewline: rapid.Bool().Draw(t, "nofinal")}
+		c.Layout.AfterTips = c.Layout.BreakAfterComma && rapid.IntRange(0, 2).Draw(t, "aftertips") == 0
+		c.Layout.ENum = rapid.IntRange(0, 5).Draw(t, "enum") == 0
 		if c.Layout.NoFinalNewline && rapid.IntRange(0, 3).Draw(t, "padlast") == 1 {
 			c.Layout.PadLast = 4096 // the last line, without end of line, fills the reader's buffer exactly
 		}
@@ -385,6 +387,16 @@ func check(c Case) error {
 			s := ref.Write(m)
 			if c.Broken == i+1 {
 				s = breakTree(s)
+			} else if c.Layout.AfterTips || c.Layout.ENum {
+				st := ref.Style{ENum: c.Layout.ENum}
+				if c.Layout.AfterTips {
+					// a line end after every tip name (the breaks after commas come from layoutTexts)
+					st.AfterTips, st.NL = true, "\n"
+					if c.Layout.CRLF {
+						st.NL = "\r\n"
+					}
+				}
+				s = ref.WriteStyled(m, st)
 			}
 			parts = append(parts, s)
 		}
@@ -535,7 +547,7 @@ func layoutTexts(parts []string, l docs.Layout) string {
 func TestC13Formats(t *testing.T) {
 	h.Run(t, h.Spec[Case]{
 		Property: "C13", Name: "formats", Quick: 16000, Thorough: 640000,
-		Rule: "lists of 1..5 trees (2..9 tips, 5% up to 30/120) with labels legal in all three formats (graphic non-blank runes without ()[],:;=<>&'\", Nexus keywords mapped to k_, numeric tip labels, in one list in six the tips are named 0..n-1 or 1..n in an order unrelated to the tree, unique names over tips and inner nodes), lengths/supports/p-values/inner names present or not; chains newick->nexus(+-translate)->newick, Tree.Nexus(), newick->phyloxml->newick, nexus->phyloxml->nexus through gotree's writers and readers compared with the original model (shape, child order, names, lengths, supports); multi-Newick streams in free layout (line breaks after commas, blank and blank-only lines, trailing blanks, CRLF, no final newline, a last line of exactly 4096 / 8192 bytes without end of line) with an optional syntactically broken member: ids consecutive in file order, every tree equal to its record, error record then nothing; first-tree reader vs first record of the multi-tree reader for the four formats on documents written independently or by gotree. Non-trivial = >= 2 trees or an inner name/support, and a layout feature / translate table / format other than plain Newick",
+		Rule: "lists of 1..5 trees (2..9 tips, 5% up to 30/120) with labels legal in all three formats (graphic non-blank runes without ()[],:;=<>&'\", Nexus keywords mapped to k_, numeric tip labels, in one list in six the tips are named 0..n-1 or 1..n in an order unrelated to the tree, unique names over tips and inner nodes), lengths/supports/p-values/inner names present or not; chains newick->nexus(+-translate)->newick, Tree.Nexus(), newick->phyloxml->newick, nexus->phyloxml->nexus through gotree's writers and readers compared with the original model (shape, child order, names, lengths, supports); multi-Newick streams in free layout (line breaks after commas, blank and blank-only lines, trailing blanks, CRLF, no final newline, a last line of exactly 4096 / 8192 bytes without end of line, one tip per line with the line end right after the tip name, numbers written as 1.5E-01) with an optional syntactically broken member: ids consecutive in file order, every tree equal to its record, error record then nothing; first-tree reader vs first record of the multi-tree reader for the four formats on documents written independently or by gotree. Non-trivial = >= 2 trees or an inner name/support, and a layout feature / translate table / format other than plain Newick",
 		Gen: genCase, Check: check,
 		Classify: func(c Case) (bool, []string) {
 			l := []string{"chain:" + c.Chain}
